@@ -483,6 +483,10 @@ class CooperativeTask:
 
         @param deferredResult: the result to fire all the deferreds with.
         """
+        if self._completionState is not None:
+            # Already complete (for example stopped while waiting on a
+            # Deferred which has only now fired); the first completion stands.
+            return
         self._completionState = completionState
         self._completionResult = deferredResult
         if not self._pauseCount:
